@@ -14,3 +14,4 @@ pub mod scopes;
 pub mod selfcycle;
 pub mod unicode;
 pub mod unit;
+pub mod keyword;
